@@ -250,7 +250,7 @@ class NDNApp:
         if typ == enc.LpTypeNumber.LP_PACKET:
             try:
                 lp_pkt = enc.parse_lp_packet_v2(data, with_tl=True)
-            except (enc.DecodeError, TypeError, ValueError, struct.error):
+            except (enc.DecodeError, TypeError, ValueError, IndexError, struct.error):
                 self.logger.warning('Unable to decode received packet')
                 return
             if lp_pkt.nack is not None:
@@ -267,7 +267,7 @@ class NDNApp:
         if nack_reason is not None:
             try:
                 name, _, _, _ = enc.parse_interest(data, with_tl=True)
-            except (enc.DecodeError, TypeError, ValueError, struct.error):
+            except (enc.DecodeError, TypeError, ValueError, IndexError, struct.error):
                 self.logger.warning('Unable to decode the fragment of LpPacket')
                 return
             if self.logger.isEnabledFor(logging.DEBUG):
@@ -277,7 +277,7 @@ class NDNApp:
             if typ == enc.TypeNumber.INTEREST:
                 try:
                     name, param, app_param, sig = enc.parse_interest(data, with_tl=True)
-                except (enc.DecodeError, TypeError, ValueError, struct.error):
+                except (enc.DecodeError, TypeError, ValueError, IndexError, struct.error):
                     self.logger.warning('Unable to decode received packet')
                     return
                 if self.logger.isEnabledFor(logging.DEBUG):
@@ -290,7 +290,7 @@ class NDNApp:
             elif typ == enc.TypeNumber.DATA:
                 try:
                     name, meta_info, content, sig = enc.parse_data(data, with_tl=True)
-                except (enc.DecodeError, TypeError, ValueError, struct.error):
+                except (enc.DecodeError, TypeError, ValueError, IndexError, struct.error):
                     self.logger.warning('Unable to decode received packet')
                     return
                 if self.logger.isEnabledFor(logging.DEBUG):
